@@ -542,7 +542,7 @@ class ViEd(Vi):
             self.row = r1
             if not lnmode:
                 self.off = o1
-            self.after_noop()
+            self.after()        # (since fix 6cc1cbb a yank reports the moved cursor like every other command: the column follows)
             return True
         if op == "d":
             self.regs.put(reg, self.region_text(r1, 0 if lnmode else o1, r2, -1 if lnmode else o2), 1 if lnmode else 0)
